@@ -31,7 +31,7 @@ MANIFEST = dict(
 
 FIELDS = ["id", "k", "f", "name", "sku"]
 SVALS = ["1", "2", "A", "B", "ab", "x y", "b"]
-NVALS = [1, 2, 0, 7]
+NVALS = [1, 2, 0, 7, 1, 2, 10, -1, True, False, None]
 
 
 def gen_records(rng, numeric=False, nested=False):
@@ -41,7 +41,7 @@ def gen_records(rng, numeric=False, nested=False):
         r = {}
         for f in rng.sample(FIELDS, rng.choice([1, 2, 3, 4])):
             if numeric and rng.random() < 0.4:
-                r[f] = rng.choice(NVALS)
+                r[f] = rng.choice(NVALS) if rng.random() < 0.97 else rng.choice([1.0, 2.5])
             else:
                 r[f] = rng.choice(SVALS)
         if nested and rng.random() < 0.7:
@@ -76,13 +76,31 @@ def lit(rng, v, quoted):
     return v
 
 
+def field_eq(x, v):
+    """does the field value x equal the literal v (a text)?  A text field is compared as text, a numeric
+    field (int, bool as Python has it, float) as a number: the literal must denote that number."""
+    if isinstance(x, str):
+        return x == v
+    if isinstance(x, int):
+        try:
+            return x == int(v)
+        except ValueError:
+            return False
+    if isinstance(x, float):
+        try:
+            return x == float(v)
+        except ValueError:
+            return False
+    return False
+
+
 def oracle(recs, form, k, f, v):
     if form in ("star", "implicit"):
         return [r[f] for r in recs if f in r]
     if form in ("eq", "text"):
-        return [r[f] for r in recs if k in r and r[k] == v and f in r]
+        return [r[f] for r in recs if k in r and field_eq(r[k], v) and f in r]
     if form == "ne":
-        return [r[f] for r in recs if k in r and r[k] != v and f in r]
+        return [r[f] for r in recs if k in r and not field_eq(r[k], v) and f in r]
     if form == "contains":
         return [r[f] for r in recs if k in r and isinstance(r[k], str) and v in r[k] and f in r]
     raise ValueError(form)
@@ -109,11 +127,6 @@ def classify(c):
     recs = X.get_at(c["tree"], c["pos"])
     if c.get("chained"):
         return "C06-b"
-    if c["form"] in ("eq", "text", "ne", "contains"):
-        if any(not isinstance(r.get(c["k"], ""), str) for r in recs):
-            return "C06-a"
-        if c["v"] == "":
-            return "C06-c"
     return None
 
 
